@@ -210,3 +210,26 @@ def run(ctx):
             funcs.append(m)
     pushes, pops = check_balance(ctx, "R14.4", funcs)
     ctx.floor("R14.4", "push sites", pushes, 5)
+
+    # ---------------- R14.5: 'declared for that section' is decided against the entry's own section table
+    ctx.rule("R14.5", "whether an attribute is unknown for an entry is decided against the valid-attribute table of the entry's section")
+    from sa.dataflow import ReachingDefs, depends_on
+    ent = prog.find_class("HedSchemaEntry")
+    n_tests = 0
+    for m in ent.all_methods:
+        if "_unknown_attributes" not in norm(m.node):
+            continue
+        rd_m = None
+        for x in walk_no_nested(m.node):
+            if isinstance(x, ast.Compare) and len(x.ops) == 1 and isinstance(x.ops[0], (ast.In, ast.NotIn)) and \
+                    "_unknown_attributes" not in norm(x.comparators[0]):
+                rd_m = rd_m or ReachingDefs(m)
+                n_tests += 1
+                ctx.saw(m)
+                ok = depends_on(rd_m, x.comparators[0], x, lambda y: isinstance(y, ast.Attribute) and y.attr == "_section")
+                ctx.check(ok, "R14.5", m.qualname, x, loc(m, x),
+                          "`%s` decides known/unknown against `%s`, which is not the valid-attribute table of this entry's "
+                          "section: an attribute declared only for another section (e.g. a unit attribute on a tag) is no longer "
+                          "reported as unknown" % (norm(x)[:50], norm(x.comparators[0])[:40]),
+                          desc="%s: known/unknown decided by the section's table" % m.short)
+    ctx.floor("R14.5", "known/unknown membership tests in HedSchemaEntry", n_tests, 2)
